@@ -383,11 +383,42 @@ func init() {
 					name := "mat_" + strings.Fields(q[0])[0]
 					c.res.ModelCases++
 					c.res.Streams[name]++
+					if i%60 == 0 && (name == "mat_inverse" || name == "mat_mulv") && mo != "panic" {
+						// cross-check of the extraction (Flocq binary64 in OCaml) against the kernel
+						dec := func(hs []string) []string {
+							var out []string
+							for _, h := range hs {
+								var v uint64
+								fmt.Sscanf(h, "%x", &v)
+								out = append(out, fmt.Sprintf("f64_of_bits %d", v))
+							}
+							return out
+						}
+						bits := func(hs []string) string {
+							var out []string
+							for _, h := range hs {
+								var v uint64
+								fmt.Sscanf(h, "%x", &v)
+								out = append(out, fmt.Sprint(v))
+							}
+							return "[" + strings.Join(out, "; ") + "]"
+						}
+						a := dec(strings.Fields(q[0])[1:])
+						mat := fmt.Sprintf("(M (V (%s) (%s) (%s)) (V (%s) (%s) (%s)) (V (%s) (%s) (%s)))", a[0], a[1], a[2], a[3], a[4], a[5], a[6], a[7], a[8])
+						if name == "mat_inverse" {
+							xcheck(name, 8, fmt.Sprintf("match inverseF %s with Some r => map bits64 [v0 (c0 r); v1 (c0 r); v2 (c0 r); v0 (c1 r); v1 (c1 r); v2 (c1 r); v0 (c2 r); v1 (c2 r); v2 (c2 r)] | None => [] end = %s", mat, bits(strings.Fields(mo))))
+						} else {
+							xcheck(name, 8, fmt.Sprintf("(let r := mulVF %s (V (%s) (%s) (%s)) in map bits64 [v0 r; v1 r; v2 r]) = %s", mat, a[9], a[10], a[11], bits(strings.Fields(mo))))
+						}
+					}
 					if canon(mo) != canon(q[1]) {
 						c.res.mismatch(Mismatch{Stream: name, Input: in, Impl: q[1], Model: mo})
 					}
 				}
 			}
+		}
+		if st := writeXCheck(c.out+"/Gen", "From Coq Require Import List ZArith. Import ListNotations.\nFrom PrismV Require Import Num.F64 Mat.Mat3G Mat.Mat3F."); st != nil {
+			c.res.GenStages = append(c.res.GenStages, st)
 		}
 		c.res.sample(map[string]interface{}{"space": "sRGB", "to_xyz": fmt.Sprint(ciexyz.TransformToXYZForXYYPrimaries(publishedSpaces[0].r, publishedSpaces[0].g, publishedSpaces[0].b, publishedSpaces[0].w))})
 	}
